@@ -27,6 +27,24 @@ NL == "\n"
 \* expressions
 \* ---------------------------------------------------------------------------------------------
 Strs == {"'s'", "\"d\"", "'q\"q'", "\"it's\"", "'a\\'b'", "\"\\65\\n\"", "[[long  text]]", "[==[ ]] ]==]"}
+\* Short strings whose body has escape sequences next to quote characters, for both quote kinds (q = the string's own
+\* quote, o = the other one).  These are the inputs on which re-quoting (quote_style = Double / Single) can go wrong:
+\* a quote of the other kind that is real (after an EVEN run of backslashes) vs. escaped (after an ODD run), a body
+\* ending in an escaped backslash, `\z` (skips the following white space incl. the newline), decimal / hex / unicode
+\* escapes and a line continuation directly in front of a quote.  Used by FmtFocus.tla (family "quote").
+BS == "\\"
+EscBodies(q, o) ==
+  {"a" \o BS \o BS \o o \o "b", BS \o BS \o o, "C:" \o BS \o BS \o o \o "x" \o o,          \* \\" : escaped backslash, real quote
+   "a" \o BS \o o \o "b", BS \o o, BS \o o \o BS \o o,                                      \* \"  : escaped other quote
+   "a" \o BS \o q \o "b", BS \o q, BS \o q \o o, o \o BS \o q,                              \* \'  : escaped own quote (next to a real other one)
+   BS \o BS \o BS \o o, BS \o BS \o BS \o BS \o o, BS \o BS \o BS \o q \o o,                \* odd / even runs of 3 and 4
+   "a" \o BS \o BS, BS \o BS, o \o BS \o BS, BS \o o \o BS \o BS,                           \* backslash at the end
+   o, o \o o, "a" \o o \o "b" \o o, "",                                                     \* plain quotes of the other kind, empty
+   "x" \o BS \o "z" \o NL \o "   y", BS \o "z" \o o, o \o BS \o "z  " \o o,                 \* \z
+   BS \o "65" \o o, BS \o "039", BS \o "34", BS \o "x41" \o o, BS \o "x22", BS \o "x27",    \* decimal / hex (34 = ", 39 = ')
+   BS \o "u{48}" \o o, BS \o "u{22}" \o BS \o "u{27}",                                      \* unicode
+   BS \o "n" \o o, BS \o "t" \o BS \o o, BS \o NL \o o, BS \o "a" \o BS \o "b" \o BS \o q}  \* control escapes, line continuation
+EscStrs == UNION {{qo[1] \o b \o qo[1] : b \in EscBodies(qo[1], qo[2])} : qo \in {<<"'", "\"">>, <<"\"", "'">>}}
 Nums == {"1", "0x10", "1e3", "3.0"}
 Names == {"a", "b.c", "t[1]", "nil", "true", "..."}
 Atoms == Strs \cup Nums \cup Names
